@@ -32,6 +32,8 @@ Decides:
  H has_help        table per HelpItem variant: a variant with an optional help is listed inside an adjacent block exactly when its help is Some.
  H env values      the current value of an environment variable enters the help only Debug-quoted ({:?}): its line breaks cannot act as paragraph breaks.
  C splitter cuts   the word scanner of the splitter cuts at byte offsets of character boundaries (shared with C04): non-ASCII help text renders.
+ L placement check  positional_invariant_check judges every command and every adjacent group that starts with a named item from a clean state
+                   (shared with C08): --help of a level with a positional in front of such a group describes it instead of panicking.
 Does not decide: de-duplication and grouping outcomes for particular shapes."""
 import re
 from core import *
